@@ -596,3 +596,51 @@ func dNormalReturns(fn *ssa.Function) []*ssa.Return {
 	}
 	return out
 }
+
+// dCellValue returns the single value ever stored into a local variable cell — counting the
+// function itself and the closures that capture the cell — or nil if the cell is assigned more than
+// once, never, or its address is used for anything but loads, stores and closure capture.
+func dCellValue(a *ssa.Alloc) ssa.Value {
+	var val ssa.Value
+	n := 0
+	var scan func(cell ssa.Value, depth int) bool
+	scan = func(cell ssa.Value, depth int) bool {
+		if depth > 3 {
+			return false
+		}
+		for _, rf := range refs(cell) {
+			switch x := rf.(type) {
+			case *ssa.Store:
+				if x.Addr != cell {
+					return false
+				}
+				n++
+				val = x.Val
+			case *ssa.UnOp:
+				if x.Op != token.MUL {
+					return false
+				}
+			case *ssa.DebugRef:
+			case *ssa.MakeClosure:
+				f, ok := x.Fn.(*ssa.Function)
+				if !ok {
+					return false
+				}
+				for i, b := range x.Bindings {
+					if b == cell && i < len(f.FreeVars) {
+						if !scan(f.FreeVars[i], depth+1) {
+							return false
+						}
+					}
+				}
+			default:
+				return false
+			}
+		}
+		return true
+	}
+	if !scan(a, 0) || n != 1 {
+		return nil
+	}
+	return val
+}
